@@ -32,7 +32,7 @@ type FlagInfo struct {
 	DefValue   string
 	Persistent bool
 	Stripped   string // name without the optional "rollkit." prefix: the option path the flag names
-	Class      string // field | by-design | legacy-signer | unmatched
+	Class      string // field | by-design | legacy-signer | unsupported-kind | unmatched
 	Leaf       *Leaf  // for Class field (and legacy-signer: the intended leaf)
 }
 
@@ -73,6 +73,15 @@ type Discovery struct {
 	ByPath      map[string]*Leaf
 	Flags       []*FlagInfo
 	Unsupported []string
+	// UnsupportedByPath: options of a kind the check has no value generator for (slice, map, pointer to scalar),
+	// by the path a flag would name. They are not leaves; a flag naming one is judged by reflect.DeepEqual on the field.
+	UnsupportedByPath map[string]*Leaf
+	// NotInFile: exported fields that can neither be written to nor read from the file (yaml:"-" and
+	// mapstructure:"-"): by construction not options of the file (today: RootDir). Evidence only.
+	NotInFile []string
+	// HiddenFromWriter: fields tagged yaml:"-" that the loader still decodes (their mapstructure name is not "-"):
+	// they ARE options (the file sets them) and are treated as leaves under their mapstructure path.
+	HiddenFromWriter []string
 }
 
 func tagName(f reflect.StructField, key string) (string, bool) {
@@ -95,17 +104,24 @@ func discoverLeaves(d *Discovery) {
 				continue
 			}
 			y, hasY := tagName(f, "yaml")
-			if y == "-" {
-				continue // not an option of the file (RootDir)
-			}
-			if !hasY || y == "" {
-				y = strings.ToLower(f.Name) // the writer's default key
-			}
 			m, hasM := tagName(f, "mapstructure")
 			if !hasM || m == "" {
 				m = f.Name // mapstructure matches the field name case-insensitively
 			}
 			m = strings.ToLower(m)
+			if y == "-" {
+				if m == "-" {
+					// neither written to nor read from the file: not an option of the file (RootDir)
+					d.NotInFile = append(d.NotInFile, gp+"."+f.Name)
+					continue
+				}
+				// the writer skips it but the loader still reads it under its mapstructure name: an option
+				d.HiddenFromWriter = append(d.HiddenFromWriter, gp+"."+f.Name)
+				y = m
+			}
+			if !hasY || y == "" {
+				y = strings.ToLower(f.Name) // the writer's default key
+			}
 			join := func(p, s string) string {
 				if p == "" {
 					return s
@@ -140,10 +156,14 @@ func discoverLeaves(d *Discovery) {
 				l.Kind, l.Bits = "float", ft.Bits()
 			default:
 				d.Unsupported = append(d.Unsupported, fmt.Sprintf("%s (%s)", l.GoName, f.Type))
+				l.Kind = "unsupported"
+				d.UnsupportedByPath[l.Path] = l
 				continue
 			}
 			if f.Type.Kind() == reflect.Pointer && l.Kind != "" && ft.Kind() != reflect.Struct {
 				d.Unsupported = append(d.Unsupported, fmt.Sprintf("%s (%s)", l.GoName, f.Type))
+				l.Kind = "unsupported"
+				d.UnsupportedByPath[l.Path] = l
 				continue
 			}
 			d.Leaves = append(d.Leaves, l)
@@ -159,6 +179,34 @@ func newCommand() *cobra.Command {
 	config.AddFlags(cmd)
 	config.AddGlobalFlags(cmd, "c18")
 	return cmd
+}
+
+// newCommandTree builds the commands the way every real binary does (apps/testapp/cmd/root.go,
+// apps/evm/*/main.go + pkg/cmd/run_node.go): the global flags (home, log.*) are PERSISTENT flags of a root command, the
+// node flags belong to a subcommand, and config.Load is called with the subcommand from inside its RunE.
+func newCommandTree(run func(sub *cobra.Command) error) *cobra.Command {
+	root := &cobra.Command{Use: "c18", SilenceUsage: true, SilenceErrors: true}
+	config.AddGlobalFlags(root, "c18")
+	sub := &cobra.Command{Use: "run", SilenceUsage: true, SilenceErrors: true, Args: cobra.NoArgs,
+		RunE: func(cmd *cobra.Command, _ []string) error { return run(cmd) }}
+	config.AddFlags(sub)
+	root.AddCommand(sub)
+	return root
+}
+
+// rawField returns the field of an option of unsupported kind as an interface value (nil pointer chain: nil).
+func rawField(c *config.Config, l *Leaf) any {
+	v := reflect.ValueOf(c).Elem()
+	for _, i := range l.index {
+		if v.Kind() == reflect.Pointer {
+			if v.IsNil() {
+				return nil
+			}
+			v = v.Elem()
+		}
+		v = v.Field(i)
+	}
+	return v.Interface()
 }
 
 func discoverFlags(d *Discovery) {
@@ -190,6 +238,9 @@ func discoverFlags(d *Discovery) {
 			fi.Class = "legacy-signer"
 			fi.Leaf = d.ByPath[legacySignerFlags[fi.Name]]
 			fi.Leaf.LegacyFlag = fi
+		case d.UnsupportedByPath[fi.Stripped] != nil:
+			fi.Class = "unsupported-kind"
+			fi.Leaf = d.UnsupportedByPath[fi.Stripped]
 		default:
 			fi.Class = "unmatched"
 		}
@@ -197,7 +248,7 @@ func discoverFlags(d *Discovery) {
 }
 
 func discover() *Discovery {
-	d := &Discovery{ByPath: map[string]*Leaf{}}
+	d := &Discovery{ByPath: map[string]*Leaf{}, UnsupportedByPath: map[string]*Leaf{}}
 	discoverLeaves(d)
 	discoverFlags(d)
 	return d
